@@ -229,6 +229,8 @@ def sched_case(
         flags = True
     kinds = list(dep_kinds) + (["flag"] if flags else [])
     sel_on = bool(sel_rate) and draw(st.floats(0, 1)) < sel_rate
+    if (n_setup or n_debug) and gen.chance(draw, 0.35):
+        n_setup = n_debug = 0  # a good share of the programs has neither setup nor debug sites
     setup_by_roots = bool(setup_call_rate) and bool(n_setup) and gen.chance(draw, setup_call_rate / 2)
     P = draw(gen.flat_prog(min_sites=min_sites, max_sites=ms, max_deps=max_deps, resources=res_pool, prio_range=prio,
                            seq_rate=seq_rate, dep_kinds=kinds, wide=wide, reuse=reuse, n_params=n_params,
@@ -313,14 +315,20 @@ def sched_case(
     if warm_rate and not case.get("failing") and case.get("call") != "setup" and gen.chance(draw, warm_rate) \
             and not any(f.get("setup") for f in P["fns"].values()):
         case["warm"] = True  # the instance has been called once before it is (re)configured and observed
-    if nested_rate and not case.get("sel") and case.get("call") != "setup" and not n_params and gen.chance(draw, nested_rate):
+    compose_ok = (nested_rate and not case.get("sel") and case.get("call") != "setup" and not n_params
+                  and all(e[0] == "v" for e in P["ret"][1]) and not any(f.get("setup") or f.get("debug") for f in P["fns"].values()))
+    if compose_ok and gen.chance(draw, 0.25):
+        case["derive"] = "compose"  # the DAG that runs is compose()d from the described one (all sites as outputs)
+    elif nested_rate and not case.get("sel") and case.get("call") != "setup" and not n_params and gen.chance(draw, nested_rate):
         case["nested"] = True  # the program is called as a DAG nested in an outer DAG
     elif nested_rate and case.get("call") != "setup" and not n_params and gen.chance(draw, 0.3):
         # the DAG object that runs is derived from the described one: a deep copy, compose() of everything, an executor
         plain_ret = all(e[0] == "v" for e in P["ret"][1])
-        opts = ["deepcopy", "executor"] + (["compose"] if plain_ret and not case.get("sel") and not any(f.get("setup") or f.get("debug") for f in P["fns"].values()) else [])
+        # (Hypothesis favours the first elements of sampled_from: the options that are only sometimes possible come first)
+        opts = (["compose"] if plain_ret and not case.get("sel") and not any(f.get("setup") or f.get("debug") for f in P["fns"].values()) else [])
         if not case.get("sel") and not case.get("failing") and not flags and not any(f.get("setup") or f.get("debug") or f.get("kind") == "const" for f in P["fns"].values()):
             opts.append("cache")
+        opts += ["executor", "deepcopy"]
         case["derive"] = draw(st.sampled_from(opts))
         if case["derive"] == "cache":
             case["cached"] = draw(st.lists(st.sampled_from(sites), min_size=1, max_size=max(1, len(sites) // 2), unique=True))
